@@ -69,7 +69,10 @@ def _case(draw):
                 event_at=draw(st.sampled_from([None, None, 0.37, 0.61, 0.83])), event_terminal=draw(st.booleans()),
                 qorder=draw(st.sampled_from(["forward", "backward", "last_first", "last_interior_first"])),
                 # the right-hand side writes into ONE preallocated array and hands that same array back on every call
-                reuse_buffer=draw(st.sampled_from([False, False, False, True])))
+                reuse_buffer=draw(st.sampled_from([False, False, False, True])),
+                # before the judged run: a run over the declared span with one lookup in its dense output, reset(), and the span
+                # mirrored about t0 - the judged run goes the other way on the same object
+                reset_mirror=draw(st.sampled_from([False, False, False, False, True])))
 
 
 RICH_FACTOR = 1000.0   # Richardson pieces are the un-extrapolated sub-steps: observed up to 110 x tolerance (worst_observed in the evidence)
@@ -205,6 +208,23 @@ def check(case):
         if exc_origin(e)[0] == "harness":
             raise
         return [V("construction_raised", "{!r}".format(e), fam + exc_sig(e), **attrs)], dict(nontrivial=False, labels=labels)
+    if case.get("reset_mirror") and case["prob"]["kind"] in ("prog", "lin"):
+        err0 = traj.run_integrate(a, None, step_limit=len(a) + (300 if fam in ("implicit_fixed", "implicit_embedded", "richardson") else 2500))
+        if err0 is None and len(a) >= 2 and np.all(np.isfinite(np.asarray(a.y))):
+            try:
+                a.sol(np.float64(0.5 * (float(a.t[0]) + float(a.t[1]))))
+                a.reset()
+                a.tf = t0 - (tf - t0)
+            except Exception as e:
+                if exc_origin(e)[0] == "harness":
+                    raise
+                return [V("query_raised", "lookup / reset() / tf assignment after a first run raised {!r}".format(e), fam + exc_sig(e), **attrs)], dict(nontrivial=False, labels=labels)
+            tf = t0 - (tf - t0)
+            backward = tf < t0
+            case = dict(case, tf=tf)
+            labels.append("reset_and_rerun_the_other_way")
+        else:
+            return [], dict(nontrivial=False, labels=labels + ["first_run_not_completed"])
     targets = [t0 + c * (tf - t0) for c in case["cuts"]] + [None]
     last_scalar = None      # (time, value) of the last scalar query made before the next call
     event_used = False
